@@ -39,10 +39,12 @@ def build_puppet(src, toolchain="1.89", opt=0, pie=True, extra=()):
     if not exe.exists():
         d.mkdir(parents=True, exist_ok=True)
         # keep the source next to the binary under its own name: DW_AT_name / line tables refer to it
-        rc, so, se = sh(["rustc", tc] + flags + ["--crate-name", src.stem, "-o", str(exe), str(src)],
-                        check=False, timeout=300)
+        tmp = d / f"{src.stem}.{os.getpid()}.tmp"
+        rc, so, se = sh(["rustc", tc] + flags + ["--crate-name", src.stem, "-o", str(tmp), str(src)],
+                        check=False, timeout=600)
         if rc != 0:
             raise ToolError(f"puppet {src} does not compile with {toolchain}: {se[-2000:]}")
+        os.replace(tmp, exe)
     return exe
 
 
